@@ -11,7 +11,7 @@ NOT_APPLICABLE = {
 }
 
 claim("C17", "exploration", E1,
-      "Bounded-exhaustive enumeration of every vector length 0..=130 x kernel x probe (dense, one-hot at every index, every special value at every index) against a scalar reference; exhaustive over the stated alphabet, not over all floats.",
+      "Bounded-exhaustive enumeration of every vector length 0..=130 x kernel x probe (dense, one-hot at every index, every special value at every index; cancellation, overflow-range and antiparallel-momentum probes for the reductions and the ESH update) against a scalar reference; exhaustive over the stated alphabet, not over all floats.",
       "Trusted: the scalar reference formulas in c17.rs; SIMD level = what pulp selects on this CPU; tolerances (n+8)*4 ulp of sum |terms|.",
       "bounded-exhaustive input enumeration (length x index x special value) against scalar reference", "4/C17")
 
@@ -19,30 +19,30 @@ E2_NOTE = ("Trusted: shuttle 0.9.3 engine (with a vendored 3-line patch of shutt
            "the facade's FIFO pool shim stands for rayon::scope_fifo (documented semantics), real time is abstracted (timed waits time out at quiescence or immediately for zero); "
            "sequential consistency at scheduling points (sampler.rs uses only mutexes and channels); 2-d Gaussian model, 3 draws per chain, recording storage backend.")
 claim("C10", "model_checking", E2,
-      "All schedules up to the preemption bound of the real sampler.rs for (chains,cores) in {(1,1),(2,1),(2,2)[,(3,2),(3,3)]} x 4 command scripts x NUTS/MCLMC presets: every chain's recorded rows are bit-identical to a sequential single-chain reference built through Settings::new_chain, and chains differ pairwise.",
+      "All schedules up to the preemption bound of the real sampler.rs for (chains,cores) in {(1,1),(2,1),(2,2)[,(3,2),(3,3)]} x 4 command scripts x NUTS/MCLMC presets: every chain's recorded rows are bit-identical to a sequential single-chain reference built through Settings::new_chain, and chains differ pairwise; low-rank presets included; chains built with different RNG streams from the same start differ, with the same stream agree.",
       E2_NOTE, "stateless preemption-bounded DFS over thread schedules of the real controller (shuttle + own scheduler), bit-exact differential oracle against sequential replay", "4/C10")
 claim("C11", "model_checking", E2,
-      "All command scripts over {pause,resume,progress,flush,inspect,wait_timeout(0)} up to length 2 (3 thorough) x {abort, wait_timeout} x 5 chain/core configurations, plus commands after completion; every schedule up to the preemption bound: no deadlock/livelock/panic, every call returns, complete traces or exact prefixes, progress counters and inspect snapshots consistent with the event log.",
+      "All command scripts over {pause,resume,progress,flush,inspect,wait_timeout(0)} up to length 2 (3 thorough) x {abort, wait_timeout} x 5 chain/core configurations, every word of length 3-4 over {pause,resume} with chains > cores, plus commands after completion; every schedule up to the preemption bound: no deadlock/livelock/panic, every call returns, complete traces or exact prefixes, progress counters and inspect snapshots consistent with the event log.",
       E2_NOTE, "stateless preemption-bounded DFS over thread schedules x exhaustive command scripts; history predicates on the event log", "4/C11")
 claim("C12", "model_checking", E2,
       "Pause-window scripts (pause/sleep-until-quiescent/resume, repeated pauses, resume-only, pause with chains > cores) under every schedule up to the bound: draws recorded by a chain after pause() returned are bounded by the control commands queued for it, unstarted chains stay idle, final traces equal the uninterrupted sequential reference.",
       E2_NOTE, "stateless preemption-bounded DFS over thread schedules; pause-window counting oracle + differential oracle", "4/C12")
 claim("C13", "model_checking", E2,
-      "Fault site (model construction, init_position, all inits failing, unrecoverable/recoverable density error at EVERY evaluation index of a run, storage record/finalize/flush/inspect/init failures) x faulty chain x chains/cores x terminal call x script, every schedule up to the bound: the error surfaces as Err through wait_timeout/abort, never a panic in the caller, hang or success; recoverable errors never end a chain.",
+      "Fault site (model construction, init_position, all inits failing, unrecoverable/recoverable density error at EVERY evaluation index of a run, storage record/finalize/flush/inspect/init failures) x faulty chain x chains/cores x terminal call x script (incl. progress+abort overtaking a faulty draw), every schedule up to the bound: the error surfaces as Err through wait_timeout/abort, never a panic in the caller, hang or success; recoverable errors never end a chain.",
       E2_NOTE, "fault-site enumeration x stateless preemption-bounded DFS over thread schedules", "4/C13")
 
 claim("C06", "exploration", E1,
-      "Configuration sweep through the public API: num_tune 0..=60 and {100,150,400[,1000,2000]} x six presets x step-size methods x jitter x window options; per draw: tuning flag, transformation index frozen from the start of the final window, constant step_size_bar and jitter band after warmup. The warmup-schedule automaton itself (all good/rejected/divergent histories) is explored under C09.",
+      "Configuration sweep through the public API: num_tune 0..=60 and {100,150,400[,1000,2000]} x six presets x step-size methods x jitter x window options; per draw: tuning flag, transformation index frozen from the start of the final window, constant step_size_bar and jitter band after warmup; plus runs with a divergence forced in the last warmup draw, the first posterior draw and the one after it. The warmup-schedule automaton itself (all good/rejected/divergent histories) is explored under C09.",
       "Trusted: the start of the final window is re-derived from the documented options (num_tune - floor(step_size_window*num_tune); flow: floor(num_tune*(1-step_size_window))); ChaCha8 seeds are fixed configuration values; one 3-d Gaussian target.",
       "bounded-exhaustive configuration enumeration (every num_tune 0..60 x presets x methods) on the real chains", "4/C06")
 
 claim("C16", "exploration", E1,
-      "Exhaustive over the option lattice (six presets x 2^4 store flags x store_mass_matrix x use_grad_based_estimate x dims 0/1/2[/5], diagonal Gaussian and - for the low-rank presets - a correlated one so that eigenvalues are retained) x divergence placements (every single draw and every pair of draws of a 12-draw history): names and order, value variant vs declared type, length vs declared dims, presence rules for non-event / divergence / transformation-update statistics, draw counter and chain id.",
+      "Exhaustive over the option lattice (six presets x 2^4 store flags x store_mass_matrix x use_grad_based_estimate x dims 0/1/2[/5], diagonal Gaussian and - for the low-rank presets - a correlated one so that eigenvalues are retained) x divergence placements (every single draw and every pair of draws of a 12-draw history): names and order, value variant vs declared type, length vs declared dims, presence rules for non-event / divergence / transformation-update statistics, draw counter and chain id; num_tune 8, 0 and 1.",
       "Trusted: the harness' reading of the Storable contract; divergences are injected through the density (recoverable error / huge logp drop); one diagonal (and one correlated) Gaussian target per dimension.",
       "bounded-exhaustive enumeration of the option lattice x fault placements on real chains", "4/C16")
 
 claim("C14", "exploration", E1,
-      "Scenario enumeration over the storage trait seam (StorageConfig/TraceStorage/ChainStorage): backends {HashMap, ndarray, Arrow, Zarr sync memory+filesystem, Zarr async, CSV} x presets x (a warmup, b sampling rows) 0..=3(4) x chains {1,2} x store_warmup x {plain, flush after every record, inspect after every record} x aborted prefixes x every subset of diverging draws (a+b <= 4) x chunk sizes; rows produced by real chains over a model with variables of every type x shape and special values; every backend is read back with a fresh reader and compared cell by cell with the recorded reference trace (so backends agree transitively).",
+      "Scenario enumeration over the storage trait seam (StorageConfig/TraceStorage/ChainStorage): backends {HashMap, ndarray, Arrow, Zarr sync memory+filesystem, Zarr async, CSV} x presets x (a warmup, b sampling rows) 0..=3(4) x chains {1,2} x store_warmup x {plain, flush after every record, inspect after every record} x aborted prefixes x every subset of diverging draws (a+b <= 4), every pair of distinct per-chain divergence patterns, trace-level inspect x chunk sizes; rows produced by real chains over a model with variables of every type x shape and special values; every backend is read back with a fresh reader and compared cell by cell with the recorded reference trace (so backends agree transitively).",
       "Trusted: the zarrs/arrow/csv readers used for read-back; HashMap iteration order inside the Zarr writers is not owned - each Zarr scenario is repeated 3 (8) times with fresh hash keys, which is repetition, not enumeration; preallocated Zarr rows holding fill values are not counted as stored warmup draws.",
       "bounded-exhaustive scenario enumeration on the real back ends with a recording reference backend (differential oracle)", "4/C14")
 
@@ -52,27 +52,27 @@ claim("C15", "model_checking", E1,
       "exhaustive enumeration of flush-position subsets x crash points x write-completion timings on the real writers, reference = recorded rows", "4/C15")
 
 claim("C19", "exploration", E1,
-      "Six presets x default and every single-field substitution over a per-type alphabet (thorough: all pairs): JSON round trip is a fixed point, the Debug rendering of the value is identical before and after, every field that holds a value appears in the JSON, and chains built from the round-tripped settings are bit-identical. The trace-metadata clause: the sampler_settings attribute written by the sync and async Zarr writers for every substituted settings value, read back with a fresh reader, equals the settings JSON.",
+      "Six presets x default and every single-field substitution over a per-type alphabet (thorough: all pairs): JSON round trip is a fixed point, the Debug rendering of the value is identical before and after, every field that holds a value appears in the JSON (values reached by JSON substitution incl. integers beyond 2^53, and values built directly in Rust for every enum variant), and chains built from the round-tripped settings are bit-identical. The trace-metadata clause: the sampler_settings attribute written by the sync and async Zarr writers for every substituted settings value, read back with a fresh reader, equals the settings JSON.",
       "Trusted: serde_json; non-finite floats are outside the quantifier; chains are compared on one 3-d Gaussian for 30 (NUTS) / 10 (MCLMC) draws with a 200k-evaluation watchdog.",
       "bounded-exhaustive enumeration of field substitutions, differential oracle on real chains", "4/C19")
 
 claim("C05", "fault_enumeration", E1,
-      "Every evaluation index k of a complete run (set_position + warmup + 4 draws) x 8 fault kinds, plus pairs of faults in a sliding window, for Diag/LowRank NUTS (Euclidean, ExactNormal), Flow NUTS and DiagMclmc (dynamic step size on/off): no panic, unrecoverable error returned by the call that evaluated, trajectory faults reported as divergences, returned position bit-identical to an earlier valid state with its own logp/gradient, finite step size and mass-matrix scales.",
+      "Every evaluation index k of a complete run (set_position + warmup + 4 draws) x 8 fault kinds, plus pairs of faults in a sliding window, for Diag/LowRank NUTS (Euclidean, ExactNormal), Flow NUTS and DiagMclmc (dynamic step size on/off): no panic, unrecoverable error returned by the call that evaluated, trajectory faults reported as divergences, returned position bit-identical to an earlier valid state with the logp/gradient the density answered for it, finite step size, mass-matrix scales and adaptation statistics, no frozen chain afterwards; configurations with extra_doublings = 2.",
       "Trusted: 2-d Gaussian target; evaluation phases derived from the density's own log and Progress.num_steps; fixed ChaCha8 seed. One open known finding (fault at the step-size re-initialisation inside adapt).",
       "exhaustive fault-position x fault-kind enumeration on the real chains (public API)", "4/C05")
 
 claim("C09", "model_checking", E1,
-      "Explicit-state search over the real GlobalStrategy::adapt (diagonal and low-rank estimators), one call per draw with the explored event {good, not-good, divergent}: every event word for num_tune <= 7 (10 thorough) in lock-step with the reference schedule automaton (window counts, window growth, switch condition, update bookkeeping, step-size search re-run, tuning flag, frozen transformation) and with reference dual averaging of the early/symmetric statistic; BFS with de-duplication on the schedule's own counters up to num_tune 14 (24).",
+      "Explicit-state search over the real GlobalStrategy::adapt (diagonal and low-rank estimators), one call per draw with the explored event {good, not-good, divergent}: every event word for num_tune <= 7 (10 thorough) in lock-step with the reference schedule automaton (window counts, window growth, switch condition, update bookkeeping, step-size search re-run, tuning flag, frozen transformation) and with reference dual averaging of the early/symmetric statistic; BFS with de-duplication on the schedule's own counters up to num_tune 14 (24), for hand-picked option sets and for the full product of small option alphabets (864 sets per estimator).",
       "Trusted: the reference automaton R-schedule written from the property text (c09.rs) and R-dualavg; synthetic collectors built through hook H1; de-duplication key = (draw, foreground, background, window, last_update, has_initial), sound because the schedule code reads nothing else.",
       "explicit-state BFS/exhaustive word enumeration over the real transition function with canonical-state de-duplication, lock-step reference model", "4/C09")
 
 claim("C07", "model_checking", E1,
-      "Open-loop exploration of the real DualAverage / Adam / Strategy::init: all acceptance sequences over a 6-symbol alphabet up to length 6 (7) in lock-step with the published recurrences, every single-entry raise for monotonicity, 729 parameter combinations, constant all-0/all-1 runs of length 2000, and the initial doubling/halving search on Gaussian scales 1e-4..1e4 against one-step acceptances recomputed with the real leapfrog. The closed-loop sentence of the property is statistical and not decided.",
+      "Open-loop exploration of the real DualAverage / Adam / Strategy::init: all acceptance sequences over a 6-symbol alphabet up to length 6 (7) in lock-step with the published recurrences, every single-entry raise for monotonicity, 729 parameter combinations, constant all-0/all-1 runs of length 2000, the initial doubling/halving search (dual averaging and Adam) on Gaussian scales 1e-4..1e4 against one-step acceptances recomputed with the real leapfrog, the estimator restarting from the search result, and the trajectory acceptance statistic of real chain histories with injected faults (0 for a divergent leapfrog) against the mirror chain's recorded energies. The closed-loop sentence of the property is statistical and not decided.",
       "Trusted: R-dualavg / R-adam reference recurrences; leapfrog (checked under C02) for the one-step acceptance of the search oracle. One open known finding (no lower clamp: step size underflows to 0 with gamma 0.01).",
       "exhaustive enumeration of acceptance sequences (depth-bounded) against a reference recurrence, pairwise monotonicity check", "4/C07")
 
 claim("C02", "exploration", E1,
-      "Bounded-exhaustive over an explicit alphabet: dimensions {1..64} x three kinetic-energy kinds x diagonal (scales 1e-3..1e3, non-zero mean) and low-rank (ranks 0,1,2,d) transformations x step sizes of both signs x three densities x start points: one real leapfrog step vs an independent dense-matrix reference in the original space (textbook leapfrog / harmonic splitting / closed-form ESH), transformation round trip, gradient pull-back and log-determinant vs dense LU, forward+backward = identity, all {F,B} sequences up to length 4 (path independence), finite-difference Jacobian determinant, energy-error order, exact ExactNormal conservation, re-whitening after a transformation change.",
+      "Bounded-exhaustive over an explicit alphabet: dimensions {1..64} x three kinetic-energy kinds x diagonal (scales 1e-3..1e3, non-zero mean) and low-rank (ranks 0,1,2,d) transformations x step sizes of both signs x three densities x start points: one real leapfrog step vs an independent dense-matrix reference in the original space (textbook leapfrog / harmonic splitting / closed-form ESH), transformation round trip, gradient pull-back and log-determinant vs dense LU, forward+backward = identity, all {F,B} sequences up to length 4 (path independence), finite-difference Jacobian determinant, energy-error order, exact ExactNormal conservation, re-whitening after a transformation change (diagonal and low-rank, incl. the log-determinant), equivalence of a step taken with step_size_factor f at base size eps/f and the step of size eps.",
       "Trusted: the dense reference (refmodel.rs); values outside the alphabet are not covered; ill-conditioned cases (stiff quartic, saturated ESH update) are counted and only judged by the one-step comparison.",
       "bounded-exhaustive input enumeration + all short operation sequences against a dense reference model", "4/C02")
 
@@ -82,16 +82,16 @@ claim("C01", "model_checking", E1,
       "exhaustive choice-tree exploration of the real transition function over an owned RNG seam, lock-step reference model, exact detailed-balance check", "4/C01")
 
 claim("C03", "model_checking", E1,
-      "Chain histories of the real NutsChain (diagonal / low-rank adaptation x Euclidean / ExactNormal, dims 0-2, maxdepth 0-3, mindepth 0/1, target_integration_time, tight/loose max_energy_error, adaptive and fixed step sizes, optional injected divergence), 2-3 draws deep, every direction and accept/reject answer within a reject budget of 2 (3): each history is replayed on an independent mirror chain whose recorded trajectories are judged by R-nuts (termination exactly when prescribed, selected index, depth, flags, number of U-turn products), and the real chain's positions, Progress and statistics (logp, gradient, energy, energy_error, depth, n_steps, index, flags) must agree bit for bit.",
+      "Chain histories of the real NutsChain (diagonal / low-rank adaptation x Euclidean / ExactNormal, dims 0-2, maxdepth 0-3, mindepth 0/1, target_integration_time inside and beyond what maxdepth allows, tight/loose max_energy_error, adaptive and fixed step sizes, optional injected divergence), 2-3 draws deep, every direction and accept/reject answer within a reject budget of 2 (3): each history is replayed on an independent mirror chain whose recorded trajectories are judged by R-nuts (termination exactly when prescribed, selected index, depth, flags, number of U-turn products), and the real chain's positions, Progress and statistics (logp, gradient, energy, energy_error, depth, n_steps, index, flags) must agree bit for bit.",
       "Trusted: R-nuts; the mirror loop (nuts::draw + adapt, c03.rs) as the chain-wiring reference; momentum scripted at Math::array_gaussian; jitter off. Flow presets and MCLMC chains are covered by C05/C06/C16/C18 only.",
       "choice-tree exploration (deviation-bounded) of real chain histories over owned RNG/momentum seams, bit-exact differential oracle + reference NUTS", "4/C03")
 
 claim("C08", "model_checking", E1,
-      "The real estimators driven directly: diagonal exactness on Gaussians (d 1..6(12), condition numbers up to 1e12, every 3-/4-element draw multiset of a point lattice), low-rank whitening on rank-k perturbed covariances with the mean 0 / 1e3 / 2.5e6 standard deviations from the origin (translation invariance), every window of 3 draws x 3 gradients over the 8-value alphabet {0,1,-1,1e-300,1e300,NaN,+-inf} (524288 windows per diagonal mode, 46656 (262144) low-rank windows, all 64 initialiser inputs): scales finite and positive, log-determinant finite, invalid estimates keep the previous value bit-identically; closed loop fisher_distance after the last update.",
+      "The real estimators driven directly: diagonal exactness on Gaussians (d 1..6(12), condition numbers up to 1e12, every 3-/4-element draw multiset of a point lattice), low-rank whitening on rank-k perturbed covariances with the mean 0 / 1e3 / 2.5e6 standard deviations from the origin (translation invariance), small estimation windows (3..6 draws, 2n <= d) whitening their own draws, high-dimensional log-determinants with all scales tiny or huge, every window of 3 draws x 3 gradients over the 8-value alphabet {0,1,-1,1e-300,1e300,NaN,+-inf} (524288 windows per diagonal mode, 46656 (262144) low-rank windows, all 64 initialiser inputs): scales finite and positive, log-determinant finite, invalid estimates keep the previous value bit-identically; closed loop fisher_distance after the last update.",
       "Trusted: exact Gaussian gradients; low-rank whitening judged to 2e-3 (gamma = 1e-5 regularisation) with eigval_cutoff 1 for rank > 0 (with the default cut-off only diagonal structure is exactly representable); the transformation mean is not covered by the property and only counted.",
       "value-alphabet exhaustive window enumeration + bounded-exhaustive draw-set enumeration on the real estimators", "4/C08")
 
 claim("C18", "fault_enumeration", E1,
-      "DiagMclmc / LowRankMclmc through the public API with a delegating Math wrapper: configuration alphabet (dims, three trajectory kinds, step size x decoherence length x subsample frequency, dynamic step size on/off, switch fractions 0/0.3/1) plus a density fault at every evaluation index of the first three draws and at two successive evaluations: unit momentum after every ESH update and refresh, every update equals the closed-form ESH step and its kinetic-energy change, step counts max(1, round(f L / eps)) (more only under retry, integrated time = base time), divergent draws keep the position bit-identically and refresh the momentum, the Euclidean->Microcanonical switch happens once at the configured draw with a fresh normalised momentum.",
+      "DiagMclmc / LowRankMclmc through the public API with a delegating Math wrapper: configuration alphabet (dims, three trajectory kinds, step size x decoherence length x subsample frequency, dynamic step size on/off, switch fractions 0/0.3/1) plus a density fault at every evaluation index of the first three draws and at two successive evaluations: unit momentum after every ESH update and refresh, every update equals the closed-form ESH step and its kinetic-energy change, step counts max(1, round(f L / eps)) (more only under retry, integrated time = base time), divergent draws keep the position bit-identically and refresh the momentum, the Euclidean->Microcanonical switch happens once at the configured draw with a fresh normalised momentum; direct ESH updates for momenta (anti)parallel to the gradient stay on the unit sphere.",
       "Trusted: esh_reference (hyperbolic closed form) for delta < 30; real ChaCha8 stream with a fixed seed; 2-7 dimensional diagonal Gaussian.",
       "configuration alphabet x exhaustive fault-position enumeration on real chains observed at the Math seam", "4/C18")
